@@ -88,16 +88,31 @@ def check_triaxys(case, ctx):
         directional = case["variant"] % 3 != 0
         times, _ = _times(case, case["n"])
         paths, truth = [], []
+        # later files may sit on another frequency grid with the same number of bins (documented: the first file's grid is
+        # the reference, spectra of the other files are interpolated onto it; linear in frequency, zero outside their range)
+        vary = ["same", "shift", "stretch"][case["rs"] % 3] if len(times) >= 2 else "same"
+        fref = f0 + df * np.arange(nf)
         for k, t in enumerate(times):
             p = os.path.join(w, "%04d.%s" % (k, "DIRSPEC" if directional else "NONDIRSPEC"))
+            f0k = round(f0 + 0.002 * k, 3) if vary == "shift" else f0
+            dfk = round(df + 0.001, 3) if (vary == "stretch" and k >= 1) else df
             if directional:
                 E = np.array([[float("%.5E" % v) for v in row] for row in rs.rand(nf, nd) * 10 ** rs.randint(-4, 1)])
                 E[:, -1] = E[:, 0]
-                I.triaxys_dirspec(p, t, f0, df, E, ddir, header_variant=case["variant"] % 2)
+                I.triaxys_dirspec(p, t, f0k, dfk, E, ddir, header_variant=case["variant"] % 2)
             else:
                 E = np.array([float("%.7E" % v) for v in rs.rand(nf) * 10])
-                I.triaxys_nondirspec(p, t, f0, df, E)
+                I.triaxys_nondirspec(p, t, f0k, dfk, E)
             paths.append(p)
+            if (f0k, dfk) != (f0, df):
+                fk = f0k + dfk * np.arange(nf)
+                Ek = np.zeros_like(E)
+                for i, x in enumerate(fref):
+                    if fk[0] <= x <= fk[-1]:
+                        j = min(int(np.searchsorted(fk, x, side="right")) - 1, nf - 2)
+                        wgt = (x - fk[j]) / (fk[j + 1] - fk[j])
+                        Ek[i] = (1.0 - wgt) * E[j] + wgt * E[j + 1]
+                E = Ek
             truth.append(E)
         # documented reader options: toff (hours subtracted from the file's local time), magnetic_variation (added to the
         # directions; regrid_dir=False keeps the shifted labels and the file's values)
@@ -115,15 +130,15 @@ def check_triaxys(case, ctx):
         _same(ds.freq.values, f0 + df * np.arange(nf), "triaxys-freq", rtol=1e-12, atol=1e-12)
         if directional:
             _same(ds.dir.values, np.arange(nd) * float(ddir) + (mv or 0.0), "triaxys-dir")
-            _same(ds.efth.transpose("time", "freq", "dir").values, np.array(truth), "triaxys-values")
+            _same(ds.efth.transpose("time", "freq", "dir").values, np.array(truth), "triaxys-values", rtol=1e-9 if vary != "same" else 1e-12, atol=1e-12 * float(np.max(truth)) if vary != "same" else 0.0)
         else:
             if "dir" in ds.efth.dims:
                 raise Violation("triaxys-1d", "non-directional file returned a dir dimension")
-            _same(ds.efth.transpose("time", "freq").values, np.array(truth), "triaxys-values")
+            _same(ds.efth.transpose("time", "freq").values, np.array(truth), "triaxys-values", rtol=1e-9 if vary != "same" else 1e-12, atol=1e-12 * float(np.max(truth)) if vary != "same" else 0.0)
     finally:
         shutil.rmtree(w, ignore_errors=True)
     ctx.nt(len(paths) >= 2 or case["variant"] % 2 == 1)
-    ctx.label("triaxys-%s" % ("dir" if directional else "nondir"), "files=%d" % len(paths), "f0=%g,df=%g" % (f0, df), "toff" if toff else "no-toff", "magvar" if mv is not None else "no-magvar")
+    ctx.label("triaxys-%s" % ("dir" if directional else "nondir"), "files=%d" % len(paths), "f0=%g,df=%g" % (f0, df), "toff" if toff else "no-toff", "magvar" if mv is not None else "no-magvar", "grids=" + vary)
     ctx.show(dict(format="triaxys", directional=directional, files=len(paths), nf=nf, f0=f0, df=df, ddir=ddir))
 
 
